@@ -180,6 +180,8 @@ Env == \/ \E r \in Remotes, con \in BOOLEAN : \E g \in (IF con THEN ATmin..ATmax
             Submit(Cardinality(DOMAIN rq) + 1, r, con, g)
        \/ \E r \in Remotes, ty \in {"ACK", "RST"} : \E m \in MidsOfInterest(r), g \in Gs(r) : RxAckRst(r, m, ty, g)
        \/ \E q \in DOMAIN rq, ty \in {"CON", "NON", "ACK"} : \E g \in Gs(rq[q].r) : RxResp(q, ty, g)
+       \* an ACK under the ID of an open exchange that carries a response with a token of no request
+       \/ \E r \in Remotes : \E k \in ExchTo(r), g \in Gs(r) : RxUnknownResp(r, "ACK", k[2], g)
        \/ \E r \in Remotes : Err(r)
 
 Next == \/ \E k \in DOMAIN exch : Timer(k)
